@@ -94,6 +94,11 @@ class Contract:
 
     yields_nodup = True
 
+    def yields_must(self, c0, a, v):
+        """Optional lower bound when the result is only specified as a sandwich MUST <= result <= MAY
+        (yields() is then the upper bound MAY).  None: the result is exactly yields()."""
+        return None
+
     def witness(self, c0, a, v):
         """Completeness hints: {bag tag: [binder values]} (terms) for value v."""
         return {}
@@ -165,6 +170,12 @@ class Contract:
         v = fresh("y", Val)
         m = self.yields(c0, a, v)
         if m is not None:
+            must = self.yields_must(c0, a, v)
+            if must is not None:
+                # sandwich: some set Y with MUST <= Y <= MAY
+                Y = fresh("Y", SetSort)
+                st.define(z3.ForAll([v], z3.And(z3.Implies(must, z3.Select(Y, v)), z3.Implies(z3.Select(Y, v), m))))
+                m = z3.Select(Y, v)
             res = SV("gen", x=[Bag([v], m, eng.schema.refine(self.yield_sv(v)), tag="contract:" + self.short())])
         else:
             rt = self.result_term(c0, a)
@@ -294,9 +305,8 @@ class Contract:
                     bags = eng.bags_of(res, s)
                 lc = z3.And(*s.pc[st.entry_mark:]) if len(s.pc) > st.entry_mark else z3.BoolVal(True)
                 all_bags.append((s, lc, bags))
-            else:
-                for name, f in self.post(c0, c1, a, res).items():
-                    obls.append(Obligation("post.%s/%s" % (name, tag), s.assumptions(), f, info={"path": s.trace}))
+            for name, f in self.post(c0, c1, a, res).items():
+                obls.append(Obligation("post.%s/%s" % (name, tag), s.assumptions(), f, info={"path": s.trace}))
             # frame
             for name, f in self.frame_obligations(eng, c0, c1, a).items():
                 obls.append(Obligation("frame.%s/%s" % (name, tag), s.assumptions(), f, info={"path": s.trace}))
@@ -354,7 +364,9 @@ class Contract:
                 k += 1
         # completeness: every member is yielded by some site on the path that applies
         v = fresh("m", Val)
-        mem = self.yields(c0, a, v)
+        mem = self.yields_must(c0, a, v)
+        if mem is None:
+            mem = self.yields(c0, a, v)
         hints = self.witness(c0, a, v)
         base = None
         disj = []
@@ -490,16 +502,23 @@ class Registry:
     def find_loop(self, target, ordinal):
         return self.loops.get((target, ordinal))
 
-    def find_for_call(self, fi, self_cls, args):
+    def find_for_call(self, fi, self_cls, args, kwargs=None):
         cs = self.by_node.get(id(fi.node))
         if not cs:
             return None
         if len(cs) == 1:
             return cs[0]
         for c in cs:
-            if getattr(c, "selects", None) and c.selects(self_cls, args):
+            sel = getattr(c, "selects", None)
+            if sel is None:
+                continue
+            try:
+                ok = sel(self_cls, args, kwargs or {})
+            except TypeError:
+                ok = sel(self_cls, args)
+            if ok:
                 return c
-        return cs[0]
+        raise Unsupported("no contract variant of %s::%s matches this call" % (fi.file, fi.qual))
 
     def find_descriptor_contract(self, ci, attr):
         return None
